@@ -197,7 +197,9 @@ func (d *Doc) SetCreator(creator string)         { d.meta("SetCreator", creator)
 func (d *Doc) SetAuthors(authors []string)       { d.meta("SetAuthors", authors...) }
 func (d *Doc) SetKeywords(keywords []string)     { d.meta("SetKeywords", keywords...) }
 func (d *Doc) SetProducer(producer string)       { d.meta("SetProducer", producer) }
-func (d *Doc) SetDateCreation(t time.Time)       { d.meta("SetDateCreation", t.UTC().Format(time.RFC3339Nano)) }
+func (d *Doc) SetDateCreation(t time.Time) {
+	d.meta("SetDateCreation", t.UTC().Format(time.RFC3339Nano))
+}
 func (d *Doc) SetDateModification(t time.Time) {
 	d.meta("SetDateModification", t.UTC().Format(time.RFC3339Nano))
 }
